@@ -18,12 +18,12 @@ package datatype
 //@ # ---- the interface every AVP payload implements -------------------------
 //@ iface datatype.Type.Len(v) (r)
 //@   pure
-//@   requires valid(v)
+//@   requires deepvalid(v)
 //@   ensures len: r == dlen(v)
 //@ end
 //@ iface datatype.Type.Padding(v) (r)
 //@   pure
-//@   requires valid(v)
+//@   requires deepvalid(v)
 //@   ensures pad: r == dpad(v)
 //@ end
 //@ iface datatype.Type.Type(v) (r)
@@ -33,7 +33,7 @@ package datatype
 //@ end
 //@ iface datatype.Type.Serialize(v) (r)
 //@   modifies
-//@   requires valid(v)
+//@   requires deepvalid(v)
 //@   ensures len: len(r) == dlen(v)
 //@   ensures bytes: forall i int :: 0 <= i && i < len(r) ==> r[i] == dbyte(v, i)
 //@ end
